@@ -184,6 +184,7 @@ impl Poly1305 {
         self.h[1] = h1;
         self.h[2] = h2;
         self.h[3] = h3;
+        self.finalized = true;
     }
 }
 
